@@ -915,6 +915,8 @@ def _uniform_(t, a=0, b=1, **kw):
     s_ = d.snap()
     ops.assume_forall(tuple(t.shape), lambda I: z3.And(s_(I) >= cast(a, "f"), s_(I) <= cast(b, "f")))
     t.write(lambda idx, old: s_(idx))
+    for h in getattr(cur(), "draw_hooks", []):
+        h("uniform_", d)            # a contract may state a pre-condition on a draw when it is made (whatever the order of the draws)
     return t
 
 
